@@ -8,7 +8,7 @@
 
 enum { K_NONE, K_BC_ABSENT, K_BC_FALSE, K_BC_TRUE, K_PL_ABSENT, K_PL_0, K_PL_1, K_PL_EXACT, K_PL_LESS, K_KU_ABSENT, K_KU_NOCERTSIGN, K_KU_DS_ONLY, K_KU_KE_ONLY, K_KU_NONCRIT, K_KU_CERTSIGN_ON_LEAF,
 	K_EKU_SERVER, K_EKU_CLIENT, K_EKU_ANY, K_EXPIRED, K_NOTYET, K_LONGSPAN, K_SIG_FLIP, K_SIG_OTHERKEY, K_ISSUER_MISMATCH, K_UNK_NONCRIT, K_UNK_CRIT, K_V1, K_ISSUER_EXTENDED, K_ISSUER_TRUNCATED, K_ISSUER_LASTCHAR, K_NB_NOW, K_NA_NOW, K_NB_NOW1, K_NA_NOW1, NKINDS,
-	G_STORE_UNRELATED = 100, G_STORE_SAMENAME, G_STORE_EMPTY, G_DEPTH };
+	G_STORE_UNRELATED = 100, G_STORE_SAMENAME, G_STORE_EMPTY, G_DEPTH, G_STORE_DECOY_FIRST, G_STORE_DECOY_ONLY };
 static const char *KN[] = { "none", "bc-absent", "bc-cA=FALSE", "bc-cA=TRUE", "pathlen-absent", "pathlen-0", "pathlen-1", "pathlen-exact", "pathlen-one-less", "ku-absent", "ku-no-keyCertSign", "ku-digitalSignature-only", "ku-keyEncipherment-only", "ku-non-critical", "ku-keyCertSign-on-leaf",
 	"eku-serverAuth", "eku-clientAuth", "eku-any", "expired", "not-yet-valid", "span>10y", "sig-bitflip", "sig-other-key", "issuer-name-mismatch", "unknown-ext-noncritical", "unknown-ext-critical", "version-v1", "issuer-name-with-extra-rdn", "issuer-name-without-last-rdn", "issuer-name-last-char", "notBefore=now", "notAfter=now", "notBefore=now+1s", "notAfter=now-1s" };
 typedef struct { int pos, kind, arg; } devn_t;   /* pos: 0 leaf, 1..L-1 intermediates, L anchor, -1 enc leaf (TLCP), -2 global */
@@ -22,7 +22,7 @@ static void canonical(chain_t *ch, int L, int role, int tlcp) {
 }
 static void apply(chain_t *ch, devn_t d) {
 	if (d.kind == K_NONE) return;
-	if (d.pos == -2) { if (d.kind == G_STORE_UNRELATED) ch->store = 1; else if (d.kind == G_STORE_SAMENAME) ch->store = 2; else if (d.kind == G_STORE_EMPTY) ch->store = 3; else if (d.kind == G_DEPTH) ch->depth = d.arg; return; }
+	if (d.pos == -2) { if (d.kind == G_STORE_UNRELATED) ch->store = 1; else if (d.kind == G_STORE_SAMENAME) ch->store = 2; else if (d.kind == G_STORE_EMPTY) ch->store = 3; else if (d.kind == G_STORE_DECOY_FIRST || d.kind == G_STORE_DECOY_ONLY) { /* the anchor gets a two-RDN name (and everything it issues names it so); the store holds, in FRONT of it or instead of it, another self-signed CA whose one-RDN name is a proper prefix of the anchor's */ ch->store = d.kind == G_STORE_DECOY_FIRST ? 4 : 5; ch->c[ch->L].subj_extra = ch->c[ch->L].iss_extra = 1; ch->c[ch->L - 1].iss_extra = 1; if (ch->L == 1) ch->enc.iss_extra = 1; } else if (d.kind == G_DEPTH) ch->depth = d.arg; return; }
 	cert_spec *s = d.pos == -1 ? &ch->enc : &ch->c[d.pos]; int below = d.pos > 0 ? d.pos - 1 : 0;
 	switch (d.kind) {
 	case K_BC_ABSENT: s->bc = 0; s->pathlen = -1; break; case K_BC_FALSE: s->bc = 1; s->pathlen = -1; break; case K_BC_TRUE: s->bc = 2; break;
@@ -42,7 +42,7 @@ static int predicate(const chain_t *ch, const char **why) {
 	int L = ch->L, unspecified = 0; *why = "";
 #define REJ(w) do { *why = (w); return 0; } while (0)
 #define UNS(w) do { if (!unspecified) *why = (w); unspecified = 1; } while (0)
-	if (ch->store) REJ("anchor-not-in-store");
+	if (ch->store && ch->store != 4) REJ("anchor-not-in-store");
 	int ninter = L - 1; if (ninter > ch->depth) REJ("depth-limit");
 	for (int i = 0; i <= L; i++) { const cert_spec *s = &ch->c[i];
 		if (i < L) { if (!now_valid(s)) REJ("not-valid-now"); if (s->sig) REJ("bad-signature"); if (s->issuer_mismatch) REJ("issuer-name"); }
@@ -73,7 +73,8 @@ static int build(const chain_t *ch) {
 	(void)icn;
 	if (ch->store == 3) return 1;
 	cert_spec root = ch->c[L]; const SM2_KEY *rk = &CK[5]; if (ch->store == 1) { strcpy(root.cn, "U"); rk = &CK[7]; } else if (ch->store == 2) rk = &CK[8];
-	n = 0; int r = make_cert(&root, rk, rk, root.cn, STORE, &n); if (r != 1) return r; STL = n;
+	int r; if (ch->store >= 4) { cert_spec dec = ch->c[L]; dec.subj_extra = dec.iss_extra = 0; n = 0; r = make_cert(&dec, &CK[8], &CK[8], dec.cn, STORE, &n); if (r != 1) return r; STL = n; if (ch->store == 5) return 1; }
+	n = 0; r = make_cert(&root, rk, rk, root.cn, STORE + STL, &n); if (r != 1) return r; STL += n;
 	/* a second, unrelated anchor in front so that lookup is not positional */
 	cert_spec u; spec_ca(&u, "U2", -1); n = 0; if (make_cert(&u, &CK[9], &CK[9], "U2", STORE + STL, &n) == 1) STL += n;
 	return 1;
@@ -81,7 +82,7 @@ static int build(const chain_t *ch) {
 static void run_case(const chain_t *ch, const devn_t *d, int nd) {
 	const char *why; int want = predicate(ch, &why); int br = build(ch); if (br != 1) { vh_evals++; return; } /* the issuing functions refuse this shape: nothing to verify */
 	int vr = 0; int r = ch->tlcp ? x509_certs_verify_tlcp(CHAIN, CHL, ch->role ? X509_cert_chain_client : X509_cert_chain_server, STORE, STL, ch->depth, &vr) : x509_certs_verify(CHAIN, CHL, ch->role ? X509_cert_chain_client : X509_cert_chain_server, STORE, STL, ch->depth, &vr);
-	char desc[200] = ""; for (int i = 0; i < nd; i++) { char t[80]; if (d[i].kind == K_NONE) continue; if (d[i].pos == -2) snprintf(t, sizeof t, "%s%s%d", d[i].kind == G_DEPTH ? "depth=" : d[i].kind == G_STORE_UNRELATED ? "store-unrelated" : d[i].kind == G_STORE_SAMENAME ? "store-samename-otherkey" : "store-empty", "", d[i].kind == G_DEPTH ? d[i].arg : 0); else snprintf(t, sizeof t, "%s@%s", KN[d[i].kind], d[i].pos == -1 ? "enc" : d[i].pos == 0 ? "leaf" : d[i].pos == ch->L ? "anchor" : d[i].pos == 1 ? "ca1" : "caN"); if (desc[0]) strcat(desc, "+"); strcat(desc, t); }
+	char desc[200] = ""; for (int i = 0; i < nd; i++) { char t[80]; if (d[i].kind == K_NONE) continue; if (d[i].pos == -2) snprintf(t, sizeof t, "%s%s%d", d[i].kind == G_DEPTH ? "depth=" : d[i].kind == G_STORE_UNRELATED ? "store-unrelated" : d[i].kind == G_STORE_SAMENAME ? "store-samename-otherkey" : d[i].kind == G_STORE_DECOY_FIRST ? "store-with-prefix-named-decoy-in-front" : d[i].kind == G_STORE_DECOY_ONLY ? "store-with-prefix-named-decoy-only" : "store-empty", "", d[i].kind == G_DEPTH ? d[i].arg : 0); else snprintf(t, sizeof t, "%s@%s", KN[d[i].kind], d[i].pos == -1 ? "enc" : d[i].pos == 0 ? "leaf" : d[i].pos == ch->L ? "anchor" : d[i].pos == 1 ? "ca1" : "caN"); if (desc[0]) strcat(desc, "+"); strcat(desc, t); }
 	uint64_t key = vh_hash(ch, sizeof *ch, 7); vh_eval(want >= 0 ? key : 0); if (want < 0) vh_evals += 0;
 	if (want == 0 && r == 1) { char k[256]; snprintf(k, sizeof k, "C07:accepts-invalid:%s:%s:%s", ch->tlcp ? "tlcp" : "tls", why, desc[0] ? desc : "none"); vh_viol(k, "\"L\":%d,\"role\":\"%s\",\"depth\":%d,\"why\":\"%s\",\"deviations\":\"%s\"", ch->L, ch->role ? "client" : "server", ch->depth, why, desc); }
 	if (want == 1 && r != 1) { char k[256]; snprintf(k, sizeof k, "C07:rejects-valid:%s:%s:%s", ch->tlcp ? "tlcp" : "tls", ch->role ? "client" : "server", desc[0] ? desc : "canonical"); vh_viol(k, "\"L\":%d,\"role\":\"%s\",\"depth\":%d,\"deviations\":\"%s\",\"ret\":%d", ch->L, ch->role ? "client" : "server", ch->depth, desc, r); }
@@ -89,7 +90,7 @@ static void run_case(const chain_t *ch, const devn_t *d, int nd) {
 }
 static int menu(int L, int tlcp, devn_t *out) { int n = 0; out[n++] = (devn_t){ 0, K_NONE, 0 };
 	for (int pos = tlcp ? -1 : 0; pos <= L; pos++) for (int k = 1; k < NKINDS; k++) { if (pos <= 0 && (k == K_PL_EXACT || k == K_PL_LESS || k == K_KU_NOCERTSIGN)) continue; if (pos > 0 && (k == K_KU_CERTSIGN_ON_LEAF || k == K_BC_TRUE)) continue; if (k == K_PL_LESS && pos == 1) continue; out[n++] = (devn_t){ pos, k, 0 }; }
-	out[n++] = (devn_t){ -2, G_STORE_UNRELATED, 0 }; out[n++] = (devn_t){ -2, G_STORE_SAMENAME, 0 }; out[n++] = (devn_t){ -2, G_STORE_EMPTY, 0 }; for (int dpt = 0; dpt <= 5; dpt++) out[n++] = (devn_t){ -2, G_DEPTH, dpt }; return n; }
+	out[n++] = (devn_t){ -2, G_STORE_UNRELATED, 0 }; out[n++] = (devn_t){ -2, G_STORE_SAMENAME, 0 }; out[n++] = (devn_t){ -2, G_STORE_EMPTY, 0 }; out[n++] = (devn_t){ -2, G_STORE_DECOY_FIRST, 0 }; out[n++] = (devn_t){ -2, G_STORE_DECOY_ONLY, 0 }; for (int dpt = 0; dpt <= 5; dpt++) out[n++] = (devn_t){ -2, G_DEPTH, dpt }; return n; }
 static void body(void) {
 	for (int tlcp = 0; tlcp < 2; tlcp++) for (int role = 0; role < 2; role++) for (int L = 1; L <= 5; L++) {
 		char bn[64]; snprintf(bn, sizeof bn, "%s-%s-L%d", tlcp ? "tlcp" : "tls", role ? "client" : "server", L); if (!vh_block_begin(bn)) continue;
